@@ -91,7 +91,12 @@ TFinish ==
                         /\ ix.title = IF D = <<>> THEN "prefix" ELSE "prefix+sep+rel"
          c15 == /\ \A D \in ProcDirs(tree0, cfg) : {x[2] : x \in {y \in PageFiles : y[1] = D}} = {f.n : f \in ProcFiles(tree0, cfg, D)}
                 /\ \A j \in 1..Len(visited) : ~Excluded(visited[j])
-     IN PrintT(<<"END", ToJson([tid |-> tid, id |-> Tr.id, rejs |-> rejs, stack_empty |-> stack = <<>>, matches |-> Len(Tr.matches),
+         closed == hasOut =>
+                     /\ \A ix \in SeqRange(Eff("index")) :
+                           /\ \A j \in 1..Len(ix.toc_files) : <<ix.dir, ix.toc_files[j]>> \in Pages
+                           /\ \A j \in 1..Len(ix.toc_dirs) : \E d \in IndexDirs : Len(d) = Len(ix.dir) + 1 /\ IsPrefix2(ix.dir, d) /\ d[Len(d)].n = ix.toc_dirs[j]
+                     /\ \A pg \in Pages : pg[1] \in IndexDirs /\ pg[2] \in ToSet(IndexOf(pg[1]).toc_files)
+     IN PrintT(<<"END", ToJson([tid |-> tid, id |-> Tr.id, closed |-> closed, rejs |-> rejs, stack_empty |-> stack = <<>>, matches |-> Len(Tr.matches),
                                 match_agree |-> MatchAgree, indom |-> dom,
                                 C13 |-> Verdict(dom, c13), C14 |-> Verdict(dom, c14), C15 |-> Verdict(dom, c15)])>>)
   /\ UNCHANGED <<tid, l, rejs, tree0, cfg, fs, stack, visited, scanned, effects, hist>>
